@@ -238,6 +238,38 @@ fn case_random_api(t: &mut Tape, st: &mut Stats) -> Verdict {
     }
 }
 
+/// (api-large) hundreds of names: 300..700 registrations / removals over a universe of 150..400 names
+fn case_large_api(t: &mut Tape, st: &mut Stats) -> Verdict {
+    let size = 150 + t.below(251);
+    let names: Vec<String> = (0..size).map(|i| format!("n{}", i)).collect();
+    let u: Vec<&str> = names.iter().map(|s| s.as_str()).collect();
+    let n = 300 + t.below(401);
+    let mut ops = vec![];
+    for _ in 0..n {
+        if t.chance(3, 4) {
+            let name = t.pick(&u).to_string();
+            let k = t.below(5);
+            let mut al: Vec<String> = vec![];
+            for _ in 0..k {
+                let a = t.pick(&u).to_string();
+                if !al.contains(&a) {
+                    al.push(a);
+                }
+            }
+            ops.push(Op::Set(name, al));
+        } else {
+            ops.push(Op::Remove(t.pick(&u).to_string()));
+        }
+    }
+    match apply_and_compare(&ops, &u, st) {
+        Ok(_) => {
+            st.class("registry-of-hundreds-of-names");
+            Verdict::Pass(Some(fp(&format!("{:?}", ops))))
+        }
+        Err((sig, d)) => fail(&sig, d),
+    }
+}
+
 // ---------------------------------------------------------------------------------------------
 // script level
 // ---------------------------------------------------------------------------------------------
@@ -528,7 +560,7 @@ fn case_script(t: &mut Tape, st: &mut Stats) -> Verdict {
 pub fn property() -> Property {
     Property {
         id: "C15",
-        rule: "(api) EXHAUSTIVE enumeration of all histories of the 24 mutating operations (set of a command named A/B/C with any alias subset of size <= 2, remove A/B/C) up to length 4 (quick, 331,776) / 5 (thorough, 7,962,624); after every step the return value, get/exists/get_for_use for the whole universe, get_all_command_names and the no-dangling-alias invariant are compared with a name-table-plus-alias-table model; random histories up to length 40 over 6 names and alias sets <= 3; (script) random sequences of alias / unalias / remove_command / is_command_defined / function definitions / invocations over user names and real SDK names, compared with the same model seeded from the live registry. Non-trivial: a refused registration followed by lookups, a removal through an alias or a name/alias collision; distinct by history",
+        rule: "(api) EXHAUSTIVE enumeration of all histories of the 24 mutating operations (set of a command named A/B/C with any alias subset of size <= 2, remove A/B/C) up to length 4 (quick, 331,776) / 5 (thorough, 7,962,624); after every step the return value, get/exists/get_for_use for the whole universe, get_all_command_names and the no-dangling-alias invariant are compared with a name-table-plus-alias-table model; random histories up to length 40 over 6 names and alias sets <= 3; (api-large) 300..700 registrations / removals over a universe of 150..400 names, all lookups after every step; (script) random sequences of alias / unalias / remove_command / is_command_defined / function definitions / invocations over user names and real SDK names, compared with the same model seeded from the live registry; one history in four is run as two scripts, the second on the context returned by the first (which ends at its last line or with exit). Non-trivial: a refused registration followed by lookups, a removal through an alias or a name/alias collision; distinct by history",
         assumptions: &[
             "unalias is modelled from its help: it removes a command created by alias (and not removed since), or a registry alias entry",
             "script histories that remove a command the history itself needs (alias, fn, emit ...) are discarded",
@@ -560,6 +592,15 @@ pub fn property() -> Property {
                 },
                 case: case_random_api,
                 min_classes: &[],
+            },
+            Section {
+                name: "api-large",
+                plan: |t| match t {
+                    Tier::Quick => Plan::Random { cases: 200, max_len: 4000 },
+                    Tier::Thorough => Plan::Random { cases: 6_000, max_len: 4000 },
+                },
+                case: case_large_api,
+                min_classes: &[("registry-of-hundreds-of-names", 150)],
             },
             Section {
                 name: "script",
